@@ -271,7 +271,7 @@ class Kind:
 
     def sort(self):
         return {'int': IntSort, 'bool': BoolSort, 'real': RealSort, 'bytes': BytesSort,
-                'str': StrSort, 'obj': IntSort}[self.ty]
+                'str': StrSort, 'obj': IntSort, 'fn': IntSort, 'enum': IntSort}[self.ty]
 
     def __repr__(self):
         return 'Kind(%s%s)' % (self.ty, ',' + self.cls.name if self.cls is not None else '')
@@ -335,6 +335,17 @@ class Opaque:
 
     def __repr__(self):
         return '<Opaque %s>' % self.name
+
+
+class SymFn:
+    """a callable (or None when ref = 0) known only by a z3 Int reference: calls are recorded as events"""
+    __slots__ = ('ref',)
+
+    def __init__(self, ref):
+        self.ref = ref
+
+    def __repr__(self):
+        return '<SymFn %s>' % (self.ref,)
 
 
 class ClassVal:
